@@ -1,5 +1,5 @@
 (* C10 — decorated functions run forward, then f, then the inverses in reverse order. *)
-From Connectome Require Import Values MiscGen Loopback LoopbackFacts.
+From Connectome Require Import Values LoopGen Loopback LoopbackFacts.
 Local Open Scope list_scope.
 
 (* For every chain of layers - x defined (with or without a private parameter), inherited or absent; any @inverse
